@@ -198,6 +198,10 @@ def reveal (S : Suite) (allow : String → List String) (t : Test) : List Inst :
 def workerNodes (S : Suite) (allow : String → List String) (sel : List RLine) : List Inst :=
   dedup ((selected S sel).flatMap (reveal S allow))
 
+/-- lazy parsing: the nodes present after the flat nodes in `order` have been expanded (for one worker) -/
+def lazyNodes (S : Suite) (allow : String → List String) (order : List Test) : List Inst :=
+  dedup (order.flatMap (reveal S allow))
+
 structure GEdge where
   worker : String
   child  : Key
@@ -226,6 +230,14 @@ def resolveWorker (S : Suite) (user : List (String × VLine)) (sel : List RLine)
 /-- every worker gets its own copy; the shared root (not represented) is the parent of every parentless node -/
 def resolve (S : Suite) (user : List (String × VLine)) (sel : List RLine) (ws : List Worker) : RGraph :=
   let gs := ws.map (resolveWorker S user sel)
+  { nodes := gs.flatMap (·.nodes), edges := gs.flatMap (·.edges) }
+
+/-- the lazily built graph after the expansions `steps` = (worker name, test name) in any order -/
+def resolveLazy (S : Suite) (user : List (String × VLine)) (ws : List Worker) (steps : List (String × Name)) : RGraph :=
+  let gs := ws.map (fun w =>
+    let order := S.tests.filter (fun t => steps.contains (w.name, t.name))
+    let ns := lazyNodes S (allowed S user w) order
+    ({ nodes := ns.map (fun i => { worker := w.name, inst := i }), edges := ns.flatMap (edgesOf w.name) } : RGraph))
   { nodes := gs.flatMap (·.nodes), edges := gs.flatMap (·.edges) }
 
 end I2N.Resolve
